@@ -88,7 +88,7 @@ Definition ops_robust (op : string) (args0 : list string) : option string :=
     | [T; h; a; b; c; d] =>
         match parse_hex h, parse_N a, parse_N b, parse_N c, parse_N d with
         | Some bs, Some a, Some b, Some c, Some d =>
-            if (a <? 2 ^ 32) && (b <? 2 ^ 32) && (c <? 2 ^ 32) && (d <? 2 ^ 32) && ((b - a) * (d - c) <=? 4096)
+            if (a <? 2 ^ 32) && (b <? 2 ^ 32) && (c <? 2 ^ 32) && (d <? 2 ^ 32) && (b - a <=? 4096) && (d - c <=? 4096) && ((b - a) * (d - c) <=? 4096)
                && negb (String.eqb T "header")
             then accept_reject sz T bs else None
         | _, _, _, _, _ => None end
